@@ -841,7 +841,7 @@ func c14ConcurrentJSON(c *Ctx) {
 		done := make(chan struct{})
 		go func() {
 			defer close(done)
-			req := httptest.NewRequest("GET", "/accessories", nil)
+			req := withLocal(httptest.NewRequest("GET", "/accessories", nil))
 			req.RemoteAddr = addr
 			safely(func() { f.server.Mux.ServeHTTP(sw, req) })
 		}()
